@@ -158,6 +158,19 @@ def produced_types(repo):
                 t = const(c.args[2])
                 if isinstance(t, str):
                     out.add(t)
+                elif isinstance(c.args[2], ast.Name):
+                    # a local that holds the type: every string constant assigned to it in this handler
+                    var = c.args[2].id
+                    for st in ast.walk(fn):
+                        if isinstance(st, ast.Assign):
+                            for tg in st.targets:
+                                if isinstance(tg, ast.Name) and tg.id == var:
+                                    vals = [st.value] + ([st.value.body, st.value.orelse] if isinstance(st.value, ast.IfExp) else [])
+                                    out.update(v.value for v in vals if isinstance(v, ast.Constant) and isinstance(v.value, str))
+                                elif isinstance(tg, ast.Tuple) and isinstance(st.value, ast.Tuple) and len(tg.elts) == len(st.value.elts):
+                                    for a_, b_ in zip(tg.elts, st.value.elts):
+                                        if isinstance(a_, ast.Name) and a_.id == var and isinstance(b_, ast.Constant) and isinstance(b_.value, str):
+                                            out.add(b_.value)
     return out
 
 
